@@ -575,7 +575,7 @@ impl Prop for P {
             vec(vec(interval_strategy(1e6), 8..=8), 1..=3),
             0u8..=20,
         )
-            .prop_map(|(dag, points, boxes, slice_len)| { let points = gens::coincide(&dag, points); Case {
+            .prop_map(|(dag, points, boxes, slice_len)| { let points = gens::coincide(&dag, points); let boxes = boxes.into_iter().map(|b| gens::coincide_boxes(&dag, b, 1e6)).collect(); Case {
                 dag,
                 points,
                 boxes,
